@@ -1211,7 +1211,65 @@ def _s_uf(ex, st, args, kw, node):
     return call_lib(ex, st, name, args[1:], kw, node)
 
 
+_SUMS: dict = {}
+
+
+def _s_sum_range(ex, st, args, kw, node):
+    """sum_range(lambda q: f(q), lo, hi) = sum of f(q) for lo <= q < hi (0 when hi <= lo).
+
+    Encoded with one uninterpreted prefix-sum function S per (lambda, captured values):
+    S(lo) = 0, and S(q+1) = S(q) + f(q) for q >= lo; instantiated at hi (and as a quantified
+    axiom).  LEMMA sum-zero-tail (induction, stated in lean/SumLemmas.lean): if f vanishes on
+    [a, b) then S(b) = S(a)."""
+    lam, lo, hi = args
+    if lam.kind != 'py' or lam.py[0] != 'lambda':
+        raise Unsupported('sum_range needs a lambda')
+    lnode, captured = lam.py[1], lam.py[2]
+    free = sorted({n.id for n in ast.walk(lnode.body) if isinstance(n, ast.Name)} - {a.arg for a in lnode.args.args})
+    cap_ids = tuple((n, captured[n].t.get_id() if (n in captured and captured[n].t is not None) else None) for n in free)
+    heap_ids = tuple(sorted((f, a.get_id()) for f, a in (st.heap0 if st.use_old else st.heap).items()))
+    lo_t, hi_t = as_int(lo), as_int(hi)
+    key = (ast.dump(lnode), cap_ids, heap_ids, lo_t.get_id())
+    if key not in _SUMS:
+        S = z3.Function(fresh_name('S'), I, R)
+        _SUMS[key] = S
+    S = _SUMS[key]
+
+    def f_at(t):
+        v = ex.call(st, lam, [v_int(t)], {}, node)
+        return as_real(v)
+    mark = ('sum', key)
+    if mark not in st.ghost:
+        st.ghost[mark] = True
+        q = z3.Int(fresh_name('q'))
+        st.bound.append((q, q >= lo_t))
+        try:
+            st.mark_nonneg(q) if st.is_nonneg(lo_t) else None
+            fq = f_at(q)
+        finally:
+            st.bound.pop()
+        st.pc.append(S(lo_t) == 0)
+        st.pc.append(z3.ForAll([q], z3.Implies(q >= lo_t, S(q + 1) == S(q) + fq), patterns=[S(q + 1)]))
+        a, b = z3.Int(fresh_name('a')), z3.Int(fresh_name('b'))
+        fq2 = z3.substitute(fq, (q, a))
+        # sum-zero-tail lemma
+        st.pc.append(z3.ForAll([a, b], z3.Implies(
+            z3.And(a >= lo_t, b >= a, z3.ForAll([q], z3.Implies(z3.And(q >= a, q < b), fq == 0))),
+            S(b) == S(a)), patterns=[z3.MultiPattern(S(a), S(b))]))
+        ex.ctx.note('LEMMA sum-zero-tail: a sum whose terms vanish on [a,b) does not change (induction; lean/SumLemmas.lean)')
+    # explicit unfolding at the upper end
+    h1 = z3.simplify(hi_t - 1)
+    st.guards.append(hi_t > lo_t)
+    try:
+        f_last = f_at(h1)
+    finally:
+        st.guards.pop()
+    st.pc.append(z3.Implies(hi_t > lo_t, S(hi_t) == S(h1) + f_last))
+    return v_real(z3.If(hi_t > lo_t, S(hi_t), z3.RealVal(0)))
+
+
 SPEC_BUILTINS: dict[str, Callable] = {
+    'sum_range': _s_sum_range,
     'old': _s_old,
     'forall': _s_forall,
     'exists': lambda ex, st, a, k, n: _s_forall(ex, st, a, k, n, exists=True),
